@@ -212,16 +212,18 @@ pub fn run(ctx: &Ctx) -> i32 {
     let tier = ctx.tier;
     let _ = measured();
     // (a) one-word images, (b) two- and three-word images, (c) origins, (d) templates
-    let two = alphabet(tier.pick(64, 256));
-    let three = alphabet(tier.pick(16, 40));
+    let two = alphabet(tier.pick(128, 2048));
+    let three = alphabet(tier.pick(24, 128));
+    let four = alphabet(tier.pick(8, 40));
     let origin_stride = tier.pick(16, 1);
     let tmpl = templates();
     let n_a = 65536;
     let n_b2 = two.len() * two.len();
     let n_b3 = three.len().pow(3);
+    let n_b4 = four.len().pow(4);
     let n_c = 0x10000 / origin_stride;
     let n_d = tmpl.len();
-    let total = n_a + n_b2 + n_b3 + n_c + n_d;
+    let total = n_a + n_b2 + n_b3 + n_b4 + n_c + n_d;
     let make = |idx: usize| -> (&'static str, Vec<u16>, Option<bool>) {
         if idx < n_a {
             ("a/one-word", vec![0x3000, idx as u16], None)
@@ -232,12 +234,16 @@ pub fn run(ctx: &Ctx) -> i32 {
             let i = idx - n_a - n_b2;
             let k = three.len();
             ("b/three-words", vec![0x3000, three[i / (k * k)], three[(i / k) % k], three[i % k]], None)
-        } else if idx < n_a + n_b2 + n_b3 + n_c {
-            let o = ((idx - n_a - n_b2 - n_b3) * origin_stride) as u16;
+        } else if idx < n_a + n_b2 + n_b3 + n_b4 {
+            let i = idx - n_a - n_b2 - n_b3;
+            let k = four.len();
+            ("b/four-words", vec![0x3000, four[i / (k * k * k)], four[(i / (k * k)) % k], four[(i / k) % k], four[i % k]], None)
+        } else if idx < n_a + n_b2 + n_b3 + n_b4 + n_c {
+            let o = ((idx - n_a - n_b2 - n_b3 - n_b4) * origin_stride) as u16;
             // LEA R0,#1 ; ST R0,#1 ; ADD R1,R1,#1 ; (implicit HALT) -- touches addresses around itself
             ("c/every-origin", vec![o, 0xE001, 0x3001, 0x1261], Some(false))
         } else {
-            let (name, img, stack) = &tmpl[idx - n_a - n_b2 - n_b3 - n_c];
+            let (name, img, stack) = &tmpl[idx - n_a - n_b2 - n_b3 - n_b4 - n_c];
             (name, img.clone(), Some(*stack))
         }
     };
@@ -366,7 +372,7 @@ pub fn run(ctx: &Ctx) -> i32 {
         ctx,
         all,
         Level { category: "model_checking", bfs: None },
-        "bounded-exhaustive enumeration of images, each run on the real VM under a step budget and on the reference machine for exactly as many instructions: (a) all 65,536 one-word images under both feature flags, (b) all two-word images over an opcode-covering alphabet (64 quick / 256 thorough words) and all three-word images over 16 / 40 words, (c) one image touching its neighbourhood at every origin (stride 16 quick), (d) parameterised structured templates (counted loops, nested JSR/RET, recursive CALL/RETS, self-modifying store, running off the end, computed jumps to xFFFF / below origin / >= xFE00, address wrap, every output trap, spinning under fuel, top of user space, stack gate), (e) three input programs x every byte stream of length <= 2 over 7 bytes incl. non-ASCII and premature end of input, plus all templates, through the real binary (exit status and stdout). Oracle: state right after load; how and after how many instructions the run stops; final registers/PC/CC/all memory; program output. non-trivial = runs that agreed",
+        "bounded-exhaustive enumeration of images, each run on the real VM under a step budget and on the reference machine for exactly as many instructions: (a) all 65,536 one-word images under both feature flags, (b) all two-word images over an opcode-covering alphabet (128 quick / 2048 thorough words), all three-word images over 24 / 128 words and all four-word images over 8 / 40 words, (c) one image touching its neighbourhood at every origin (stride 16 quick), (d) parameterised structured templates (counted loops, nested JSR/RET, recursive CALL/RETS, self-modifying store, running off the end, computed jumps to xFFFF / below origin / >= xFE00, address wrap, every output trap, spinning under fuel, top of user space, stack gate), (e) three input programs x every byte stream of length <= 2 over 7 bytes incl. non-ASCII and premature end of input, plus all templates, through the real binary (exit status and stdout). Oracle: state right after load; how and after how many instructions the run stops; final registers/PC/CC/all memory; program output. non-trivial = runs that agreed",
         true,
         &["normal-end", "exception-end", "cut-by-fuel", "exit-1", "printed-something", "cli-exit-0", "cli-exit-1", "cli-exit-ee"],
         &["reference machine follows the measured edition facets (LEA CC, JSRR order)", "IN's prompt/echo and R0 for non-ASCII input bytes are not judged"],
